@@ -27,7 +27,7 @@ func (vm *VM) bigGet(v Value, what string) *smt.Term {
 		vm.aliasHazard(what, b)
 	}
 	if b.T == nil && b.Lazy != nil {
-		n, d := vm.ratNormalize(RatVal{b.Lazy.N, b.Lazy.D})
+		n, d := vm.ratNormalize(rv(b.Lazy.N, b.Lazy.D))
 		if b.Lazy.Num {
 			b.T = n
 		} else {
@@ -91,11 +91,29 @@ func (vm *VM) ratGet(v Value, what string) RatVal {
 	if !ok {
 		vmErr("%s: cell does not hold a big.Rat: %s", what, describe(*p))
 	}
+	if r.Buf != nil && r.Ver < r.Buf.ver {
+		vm.aliasHazard("Rat."+what, BigVal{T: r.N})
+	}
 	return r
 }
 
 func (vm *VM) newBig(t *smt.Term) *Value {
 	return vm.newCell(BigVal{T: t, Buf: &bigBuf{}})
+}
+
+// ratStore is the result store of a big.Rat operation: the digits go into the receiver's
+// own arrays (shared with every shallow copy of the receiver struct).
+func (vm *VM) ratStore(z *Value, r RatVal) {
+	cur, _ := (*z).(RatVal)
+	buf := cur.Buf
+	if buf == nil {
+		buf = &bigBuf{}
+	} else {
+		old := buf.ver
+		vm.undo = append(vm.undo, undoEntry{f: func() { buf.ver = old }})
+		buf.ver++
+	}
+	vm.store(z, RatVal{N: r.N, D: r.D, Buf: buf, Ver: buf.ver})
 }
 
 // bigStore is the result store of a big.Int operation: like math/big it writes
@@ -203,12 +221,12 @@ func mkRat(n, d *smt.Term) RatVal {
 		if n.Op == smt.OpIntConst {
 			g := new(big.Int).GCD(nil, nil, new(big.Int).Abs(n.K), d.K)
 			if n.K.Sign() == 0 {
-				return RatVal{smt.Int64(0), smt.Int64(1)}
+				return rv(smt.Int64(0), smt.Int64(1))
 			}
-			return RatVal{smt.Int(new(big.Int).Quo(n.K, g)), smt.Int(new(big.Int).Quo(d.K, g))}
+			return rv(smt.Int(new(big.Int).Quo(n.K, g)), smt.Int(new(big.Int).Quo(d.K, g)))
 		}
 	}
-	return RatVal{n, d}
+	return rv(n, d)
 }
 
 func (vm *VM) mulTerms(a, b *smt.Term, what string) *smt.Term {
@@ -416,7 +434,7 @@ func registerBig(vm *VM) {
 	I["(*math/big.Rat).Abs"] = func(vm *VM, _ *frame, a []Value) Value {
 		z := vm.bigPtr(a[0], "Abs")
 		x := vm.ratGet(a[1], "Abs")
-		vm.store(z, RatVal{smt.Ite(smt.Lt(x.N, smt.Int64(0)), smt.Neg(x.N), x.N), x.D})
+		vm.ratStore(z, rv(smt.Ite(smt.Lt(x.N, smt.Int64(0)), smt.Neg(x.N), x.N), x.D))
 		return z
 	}
 	I["(*math/big.Rat).Quo"] = func(vm *VM, _ *frame, a []Value) Value {
@@ -433,7 +451,7 @@ func registerBig(vm *VM) {
 				n, d = smt.Neg(n), smt.Neg(d)
 			}
 		}
-		vm.store(z, mkRat(n, d))
+		vm.ratStore(z, mkRat(n, d))
 		return z
 	}
 	I["(*math/big.Rat).Inv"] = func(vm *VM, _ *frame, a []Value) Value {
@@ -448,7 +466,7 @@ func registerBig(vm *VM) {
 				n, d = smt.Neg(n), smt.Neg(d)
 			}
 		}
-		vm.store(z, mkRat(n, d))
+		vm.ratStore(z, mkRat(n, d))
 		return z
 	}
 	I["(*math/big.Int).Sign"] = func(vm *VM, _ *frame, a []Value) Value {
@@ -513,7 +531,9 @@ func registerBig(vm *VM) {
 				n, d = smt.Neg(n), smt.Neg(d)
 			}
 		}
-		return vm.newCell(mkRat(n, d))
+		r := mkRat(n, d)
+		r.Buf = &bigBuf{}
+		return vm.newCell(r)
 	}
 	I["(*math/big.Rat).SetFrac"] = func(vm *VM, _ *frame, a []Value) Value {
 		z := vm.bigPtr(a[0], "SetFrac")
@@ -527,7 +547,7 @@ func registerBig(vm *VM) {
 				n, d = smt.Neg(n), smt.Neg(d)
 			}
 		}
-		vm.store(z, mkRat(n, d))
+		vm.ratStore(z, mkRat(n, d))
 		return z
 	}
 	I["(*math/big.Rat).SetFrac64"] = func(vm *VM, _ *frame, a []Value) Value {
@@ -542,22 +562,22 @@ func registerBig(vm *VM) {
 				n, d = smt.Neg(n), smt.Neg(d)
 			}
 		}
-		vm.store(z, mkRat(n, d))
+		vm.ratStore(z, mkRat(n, d))
 		return z
 	}
 	I["(*math/big.Rat).SetInt"] = func(vm *VM, _ *frame, a []Value) Value {
 		z := vm.bigPtr(a[0], "SetInt")
-		vm.store(z, RatVal{vm.bigGet(a[1], "SetInt"), smt.Int64(1)})
+		vm.ratStore(z, rv(vm.bigGet(a[1], "SetInt"), smt.Int64(1)))
 		return z
 	}
 	I["(*math/big.Rat).SetInt64"] = func(vm *VM, _ *frame, a []Value) Value {
 		z := vm.bigPtr(a[0], "SetInt64")
-		vm.store(z, RatVal{intToTerm(a[1], 64, true), smt.Int64(1)})
+		vm.ratStore(z, rv(intToTerm(a[1], 64, true), smt.Int64(1)))
 		return z
 	}
 	I["(*math/big.Rat).Set"] = func(vm *VM, _ *frame, a []Value) Value {
 		z := vm.bigPtr(a[0], "Set")
-		vm.store(z, vm.ratGet(a[1], "Set"))
+		vm.ratStore(z, vm.ratGet(a[1], "Set"))
 		return z
 	}
 	ratAddSub := func(name string, sub bool) {
@@ -583,7 +603,7 @@ func registerBig(vm *VM) {
 				}
 				d = vm.mulTerms(x.D, y.D, name)
 			}
-			vm.store(z, mkRat(n, d))
+			vm.ratStore(z, mkRat(n, d))
 			return z
 		}
 	}
@@ -593,13 +613,13 @@ func registerBig(vm *VM) {
 		z := vm.bigPtr(a[0], "Mul")
 		x := vm.ratGet(a[1], "Mul")
 		y := vm.ratGet(a[2], "Mul")
-		vm.store(z, mkRat(vm.mulTerms(x.N, y.N, "Rat.Mul"), vm.mulTerms(x.D, y.D, "Rat.Mul")))
+		vm.ratStore(z, mkRat(vm.mulTerms(x.N, y.N, "Rat.Mul"), vm.mulTerms(x.D, y.D, "Rat.Mul")))
 		return z
 	}
 	I["(*math/big.Rat).Neg"] = func(vm *VM, _ *frame, a []Value) Value {
 		z := vm.bigPtr(a[0], "Neg")
 		x := vm.ratGet(a[1], "Neg")
-		vm.store(z, RatVal{smt.Neg(x.N), x.D})
+		vm.ratStore(z, rv(smt.Neg(x.N), x.D))
 		return z
 	}
 	I["(*math/big.Rat).Cmp"] = func(vm *VM, _ *frame, a []Value) Value {
